@@ -1,7 +1,7 @@
 (* Properties/C10.v — lookups are exact for every id (C10).  Theorems about the two-table arena
    (Model/Onto.v, transcription of src/ontology/termarena.rs) for EVERY insertion sequence and
    EVERY id; MAX_HPO_ID is regenerated from the source on every run. *)
-From HpoV Require Import Gen.Consts Model.Base Model.Onto Proofs.C10P.
+From HpoV Require Import Gen.Consts Model.Base Model.Onto Model.Script Model.ManyTerms Proofs.C10P Proofs.ManyTermsP.
 
 Theorem C10_lookup_after_any_insertions : forall ts a id, insert_all ts arena_default = Ok a ->
   ar_get id a = if MAX_HPO_ID <=? id then None else find_by t_id id ts.
@@ -25,9 +25,27 @@ Proof. exact insert_out_of_range. Qed.
 Theorem C10_id_space : MAX_HPO_ID = 10000000.
 Proof. exact eq_refl. Qed.
 
+(* the correspondence run builds an ontology of more than 65 536 terms through block forms
+   (Model/ManyTerms.v); they ARE the call-by-call Builder transcription, for every first id, stride
+   and count: the block of new_term calls, connect_all_terms on an arena without parent links, and
+   the whole script *)
+Theorem C10_many_terms_block_is_calls : forall first stride count o,
+  many_terms first stride count o = many_slow first stride count o.
+Proof. exact many_terms_is_calls. Qed.
+
+Theorem C10_connect_without_links : forall o, connect_unlinked o = b_connect_all_terms o.
+Proof. exact connect_unlinked_is_connect. Qed.
+
+Theorem C10_many_terms_script : forall icf ver first stride count,
+  run_many icf ver first stride count = run_script icf (many_script ver first stride count).
+Proof. exact run_many_is_script. Qed.
+
 Print Assumptions C10_lookup_after_any_insertions.
 Print Assumptions C10_lookup_returns_that_id.
 Print Assumptions C10_lookup_outside_id_space.
 Print Assumptions C10_iteration_exact.
 Print Assumptions C10_insert_outside_id_space_panics.
 Print Assumptions C10_id_space.
+Print Assumptions C10_many_terms_block_is_calls.
+Print Assumptions C10_connect_without_links.
+Print Assumptions C10_many_terms_script.
